@@ -1,4 +1,6 @@
 #![cfg_attr(feature = "nightly", feature(ptr_metadata, strict_provenance))]
+// VERIF MODEL: `TypeKey` hashes `type_name` in a const block (this crate is only ever built by Kani's nightly)
+#![feature(const_type_name)]
 //! **Sh**ared **re**source **d**ispatcher
 //!
 //! This library allows to dispatch
